@@ -35,8 +35,10 @@ impl TableBuilder for Program {
         if let Some(entry) = table.lookup("main").as_ref() {
             if let GlobalEntry::Procedure(main) = &entry {
                 if !main.parameters.is_empty() {
+                    // the name's range is relative to its declaration,
+                    // but errors of the program need absolute ranges
                     self.info.append_error(SplError(
-                        main.name.to_range(),
+                        main.name.to_range().shift(main.range.start),
                         BuildErrorMessage::MainMustNotHaveParameters.into(),
                     ));
                 }
